@@ -109,6 +109,12 @@ CLAIMED.update({
          LEDGER_NOTE + " Pool manager rule allow_all; only the latest pool logic (v1.1).", "5 C41"),
 })
 
+CLAIMED.update({
+ "C42": ("exploration", "deterministic simulation with fault injection: node bootstrapped from a seeded genesis (validators, set size, emission, reliability threshold, unstake delay, rounds per epoch); seeded histories of validator creation / registration / staking / unstaking / claiming / stake-then-unstake / fee changes / owner stake locking with injected system errors and restarts, interleaved with a simulated consensus driver (leaders, missed proposals, epoch changes); exact integer oracle on store reads and epoch-change events",
+         "Stake units minted are proportional (never more than x*S/T, at most x*1e-18+2 attos less); an unstake records a claim of at most the proportional share and a claim pays exactly what was recorded; staking and unstaking at once never records more than was staked; per epoch change the XRD minted <= configured emission, rewards applied <= reward vault and leave it by exactly that amount, stake vaults grow by exactly emission + rewards; the next validator set has <= max_validators members, all registered with positive stake equal to their stake vault, in descending order, none excluded from a strictly higher 100k-XRD sort bucket, and not smaller than it could be.",
+         LEDGER_NOTE.replace("Default simulator genesis.", "Seeded genesis per run.") + " Active-set selection is checked at the granularity of the engine's own 100k-XRD sort key.", "5 C42"),
+})
+
 PURE = "pure function of one input value: no schedule, clock, I/O, fault or history for a simulator to own (DESIGN section 6)"
 NOT_APPLICABLE = {
  "C16": "key mapping is a pure bijection on keys; " + PURE,
